@@ -260,6 +260,8 @@ class C08(Property):
         "Flatland.C08.Proofs.rejected_node_unchanged",
         "Flatland.C08.Proofs.rejected_seq_unchanged",
         "Flatland.C08.Proofs.rejected_map_unchanged",
+        "Flatland.C08.Proofs.keyed_sort_only_refuses",   # round m1: the model's keyed sort sorts or declines, it never raises
+        "Flatland.C08.Proofs.keyed_sort_sorts",
         "Flatland.C08.Proofs.extend_keeps_prefix",
         "Flatland.C08.Proofs.setitem_plain_sets_in_place",
         # the added hypotheses are needed (negation witnesses on the model)
